@@ -1226,6 +1226,9 @@ class Reaction(Object):
             for the reaction.
         """
         old_coefficients = self.metabolites
+        # the undo function must not see later changes to the caller's dictionary
+        # (`reaction += reaction` passes the reaction's own dictionary)
+        metabolites_to_add = dict(metabolites_to_add)
         new_metabolites = []
         _id_to_metabolites = dict([(x.id, x) for x in self._metabolites])
 
